@@ -13,7 +13,7 @@ func template(r *vh.RNG) *Scenario {
 		scn.Mailbox = "GlobalOrderedLockFree"
 	}
 	tell := func(t, n int) Label { return Label{K: "tell", T: t, N: n} }
-	switch r.Intn(9) {
+	switch r.Intn(10) {
 	case 0:
 		// all-for-one: the root restarts ALL its children when A (token 1) fails; B (token 2) is healthy, has a child
 		// (token 3) and traffic in flight while it waits for that child during its restart
@@ -77,7 +77,7 @@ func template(r *vh.RNG) *Scenario {
 		}
 		scn.Roles = []Role{
 			{Victim: "resume", Sup: []string{"restart", dirs3[r.Intn(3)]}, Rules: []Rule{{On: "L", N: -1, Inst: -1, Do: []Action{{K: "spawn", T: 1, R: 1}}}}},
-			{Rules: []Rule{{On: "P", N: 0, Inst: 0, Do: []Action{{K: "panic"}}}, {On: on, N: -1, Inst: 1, Do: []Action{{K: "report"}}},
+			{Rules: []Rule{{On: "P", N: 0, Inst: 0, Do: []Action{{K: "panic"}}}, {On: on, N: -1, Inst: 1, Do: []Action{{K: []string{"report", "panic"}[r.Intn(2)]}}},
 				{On: "P", N: 1, Inst: -1, Do: []Action{{K: "tell", T: 0, N: 2}}}}},
 		}
 		scn.Exts = []Label{{K: "spawn", T: 0, R: 0}, tell(1, 1), tell(1, 0), tell(1, 1), tell(1, 2), tell(1, 1), tell(0, 1)}
@@ -111,6 +111,19 @@ func template(r *vh.RNG) *Scenario {
 				{On: "TO", N: 1, Inst: -1, Do: []Action{{K: "tell", T: 0, N: 1}}}}},
 		}
 		scn.Exts = []Label{{K: "spawn", T: 0, R: 0}, tell(3, 0), tell(1, 0), tell(3, 1), tell(3, 0), tell(1, 1), {K: "term", T: 1, G: r.Bool()}, tell(3, 1)}
+	case 9:
+		// "respawn my worker": the parent re-creates a terminated child under the SAME name from inside that child's
+		// termination notice; the new child must stay in the children table (and be stopped and waited for later)
+		scn.Roles = []Role{
+			{Victim: "resume", Sup: []string{dirs3[r.Intn(3)]}, Rules: []Rule{{On: "L", N: -1, Inst: -1, Do: []Action{{K: "spawn", T: 1, R: 1}}},
+				{On: "TO", N: 1, Inst: -1, Do: []Action{{K: "spawn", T: 1, R: 1}, {K: "tell", T: 1, N: 1}}}}},
+			{Victim: "resume", Rules: []Rule{{On: "L", N: -1, Inst: -1, Do: []Action{{K: "spawn", T: 2, R: 2}}}, {On: "P", N: 1, Inst: -1, Do: []Action{{K: "reply", N: 2}}}}},
+			{Victim: "resume", Rules: []Rule{{On: "T", N: -1, Inst: -1, Do: []Action{{K: "tell", T: 0, N: 2}}}}},
+		}
+		scn.Exts = []Label{{K: "spawn", T: 0, R: 0}, tell(1, 0), {K: "term", T: 1, G: r.Bool()}, tell(1, 1), tell(0, 0), {K: "term", T: 0, G: r.Bool()}, tell(1, 1)}
+		if r.Bool() {
+			scn.Exts = scn.Exts[:5] // straight to Shutdown with the re-created child alive
+		}
 	default:
 		// watch requests racing with a termination: two observers, one of them the parent
 		scn.Roles = []Role{
